@@ -883,6 +883,12 @@ func (w *World) deadPanic(p *ssa.Panic) (Status, string) {
 		}
 	}
 	if onlyUnknown {
+		// the one such panic of the lexer is guarded by a byte comparison: decided by the byte-fact interpretation
+		if funcName(fn) == "(*Lexer).peekDelimiter" {
+			if n, fails := w.delimiterPanicDead(); len(fails) == 0 && n > 0 {
+				return Discharged, fmt.Sprintf("unreachable: in each of the %d calling contexts the byte under the cursor was compared equal to a quote before the literal reader was entered (LEXBOUNDS byte facts, C03/R9)", n)
+			}
+		}
 		return Undecided, "reachability depends on a condition that is neither a type test nor a constant test of a tracked value"
 	}
 	return Violated, "reachable with " + strings.Join(uniqSorted(witnesses), " | ")
